@@ -23,7 +23,11 @@ import (
 )
 
 // simConfig draws the scheduling knobs (swarm: different per run).
+// curCfg is the configuration fork of the run being set up (harness helpers draw from it).
+var curCfg *tape.Tape
+
 func simConfig(cf *tape.Tape, opsBound int, trace bool) Config {
+	curCfg = cf
 	c := Config{RecordTrace: trace}
 	c.Strategy = cf.Intn(NStrategies)
 	c.PCTDepth = 1 + cf.Intn(3)
@@ -63,8 +67,39 @@ func (h *hist) producer(ch *Chan[int], items []int) func() {
 	name := NameOf(ch)
 	h.order = append(h.order, name)
 	h.sent[name] = nil
+	// a producer may have run ahead of the combinator: part of its items (as
+	// many as the buffer takes) are already in the channel when the producer
+	// task starts, and if all fit the channel may already be closed
+	pre := 0
+	switch curCfg.Intn(4) {
+	case 1:
+		pre = Cap(ch)
+	case 2:
+		pre = Cap(ch)
+		if len(items) <= pre {
+			pre = len(items)
+			for _, it := range items {
+				h.sent[name] = append(h.sent[name], it)
+				Send(ch, it)
+			}
+			Close(ch)
+			Probe("input.closed_before_start")
+			return func() {}
+		}
+	}
+	if pre > len(items) {
+		pre = len(items)
+	}
+	for _, it := range items[:pre] {
+		h.sent[name] = append(h.sent[name], it)
+		Send(ch, it)
+	}
+	if pre > 0 {
+		Probe("input.prefilled")
+	}
+	rest := items[pre:]
 	return func() {
-		for _, it := range items {
+		for _, it := range rest {
 			h.sent[name] = append(h.sent[name], it)
 			Send(ch, it)
 		}
@@ -498,6 +533,61 @@ func init() {
 			o.Class, o.Detail = "lost-item", fmt.Sprintf("g was applied to %d of the %d items f produced", len(h.order), nb)
 		}
 		h.check(o, false, ident)
+		return o
+	})
+
+	// ---- Pipeline: the composed function used twice, concurrently -----------------
+	reg("pipeline-twice", func(ts *tape.Set, trace bool) *Outcome {
+		cf := ts.Fork("cfg")
+		nb := cf.Intn(3)
+		nc := cf.Intn(3)
+		capF := cf.Intn(3)
+		capG := cf.Intn(3)
+		s := New(simConfig(cf, 2*(60+nb*(20+8*nc)), trace), ts.Fork("sched"))
+		hs := []*hist{newHist(1), newHist(1)}
+		o := &Outcome{Decoded: map[string]any{"f_items": nb, "g_items": nc, "f_cap": capF, "g_cap": capG, "invocations": 2}}
+		f := s.Run(func() {
+			cur := map[int]*hist{7: hs[0], 8: hs[1]}
+			fn := func(a int) *Chan[int] {
+				h := cur[a]
+				c := Named(Make[int](capF), "f"+strconv.Itoa(a))
+				h.inputs = append(h.inputs, func() (bool, int, string) { return IsClosed(c), BufLen(c), NameOf(c) })
+				GoHarness("f-producer", func() {
+					for j := 0; j < nb; j++ {
+						Send(c, a*10+j)
+					}
+					Close(c)
+				})
+				return c
+			}
+			gn := func(b int) *Chan[int] {
+				h := cur[b/10]
+				c := Named(Make[int](capG), "g"+strconv.Itoa(b))
+				h.addInput(c)
+				var its []int
+				for k := 0; k < nc; k++ {
+					its = append(its, b*10+k)
+				}
+				GoHarness("g-producer", h.producer(c, its))
+				return c
+			}
+			p := pipeline.Pipeline(fn, gn)
+			out1 := Named(p(7), "out1")
+			out2 := Named(p(8), "out2")
+			regOutput(hs[0], out1)
+			regOutput(hs[1], out2)
+			i0, i1 := hs[0].invariant(s), hs[1].invariant(s)
+			s.SetInvariant(func() { i0(); i1() })
+			GoHarness("consumer2", func() { hs[1].consume(out2, 0) })
+			hs[0].consume(out1, 0)
+		})
+		finish(s, f, o)
+		for i, h := range hs {
+			if o.Class == "" && len(h.order) != nb {
+				o.Class, o.Detail = "lost-item", fmt.Sprintf("invocation %d: g was applied to %d of the %d items f produced", i, len(h.order), nb)
+			}
+			h.check(o, false, ident)
+		}
 		return o
 	})
 
